@@ -1,6 +1,8 @@
 CONSTANTS
   MaxTasks = 5
   MaxSend = 2
+  WithOnConnect = TRUE
+  HandlerCloses = FALSE
   WithCloser = FALSE
   Dev_NoConnRecheck = TRUE
   Dev_NoInputRecheck = FALSE
